@@ -284,55 +284,7 @@ func runC05(c *eng.Ctx) {
 	c.Expect("GUARD-far-key", 3)
 	P := c.P
 	// ---------------------------------------------------------------- (1) LOCKSTEP
-	twin := map[string]string{"values": "valuesExtra", "overflow": "overflowExtra", "valuesExtra": "values", "overflowExtra": "overflow"}
-	offsetPart := func(a elemAccess) bool {
-		return a.part == "whole" || a.part == "OffsetLower" || a.part == "OffsetHigher"
-	}
-	nLock := 0
-	for _, fn := range P.SrcFuncs("weed/storage/needle_map") {
-		accs := elemAccesses(fn)
-		if len(accs) == 0 {
-			continue
-		}
-		c.Touch(fn)
-		ord := map[string]int{}
-		for _, a := range accs {
-			if !offsetPart(a) {
-				continue
-			}
-			nLock++
-			kind := map[bool]string{true: "write", false: "read"}[a.write]
-			base := fmt.Sprintf("%s %s %s[%s]", eng.FuncName(fn), kind, a.arr, a.part)
-			ord[base]++
-			found := false
-			for _, b := range accs {
-				if b.arr == twin[a.arr] && b.write == a.write && offsetPart(b) && eng.SameExpr(a.idx, b.idx) && (b.in.Block() == a.in.Block() || b.in.Block().Dominates(a.in.Block()) || a.in.Block().Dominates(b.in.Block())) {
-					found = true
-					break
-				}
-			}
-			c.Ob("LOCKSTEP-extra", fmt.Sprintf("%s#%d", base, ord[base]), found, eng.InstrPos(a.in),
-				fmt.Sprintf("the %s of the offset part of %s[i] has a twin %s of %s[i] at the same index (the 5th offset byte travels with its entry)", kind, a.arr, kind, twin[a.arr]))
-		}
-		// appends
-		for _, f := range []string{"overflow", "overflowExtra", "values", "valuesExtra"} {
-			for i, st := range eng.Find(fn, eng.StoreToField("CompactSection."+f)) {
-				s := st.(*ssa.Store)
-				call, ok := s.Val.(*ssa.Call)
-				if !ok || !eng.CalleeIs(call, "builtin.append") {
-					continue
-				}
-				nLock++
-				found := false
-				for _, st2 := range eng.Find(fn, eng.StoreToField("CompactSection."+twin[f])) {
-					if c2, ok := st2.(*ssa.Store).Val.(*ssa.Call); ok && eng.CalleeIs(c2, "builtin.append") && st2.Block() == st.Block() {
-						found = true
-					}
-				}
-				c.Ob("LOCKSTEP-extra", fmt.Sprintf("%s append %s#%d", eng.FuncName(fn), f, i), found, s.Pos(), "an append to "+f+" is paired with an append to "+twin[f]+" in the same block")
-			}
-		}
-	}
+	lockstepExtra(c, "LOCKSTEP-extra")
 	c.Expect("LOCKSTEP-extra", 30)
 
 	// ---------------------------------------------------------------- (2) ORDER-delete-return
@@ -792,4 +744,61 @@ func successReturns(fn *ssa.Function) []ssa.Instruction {
 		}
 	}
 	return out
+}
+
+// lockstepExtra: the compact map keeps the 5th offset byte of entry i in a parallel slice (valuesExtra / overflowExtra);
+// every read, write, swap and append of the offset part of values[i] / overflow[i] has a twin access of the parallel
+// slice at the same index. Returns the number of accesses decided.
+func lockstepExtra(c *eng.Ctx, rule string) int {
+	P := c.P
+	twin := map[string]string{"values": "valuesExtra", "overflow": "overflowExtra", "valuesExtra": "values", "overflowExtra": "overflow"}
+	offsetPart := func(a elemAccess) bool {
+		return a.part == "whole" || a.part == "OffsetLower" || a.part == "OffsetHigher"
+	}
+	nLock := 0
+	for _, fn := range P.SrcFuncs("weed/storage/needle_map") {
+		accs := elemAccesses(fn)
+		if len(accs) == 0 {
+			continue
+		}
+		c.Touch(fn)
+		ord := map[string]int{}
+		for _, a := range accs {
+			if !offsetPart(a) {
+				continue
+			}
+			nLock++
+			kind := map[bool]string{true: "write", false: "read"}[a.write]
+			base := fmt.Sprintf("%s %s %s[%s]", eng.FuncName(fn), kind, a.arr, a.part)
+			ord[base]++
+			found := false
+			for _, b := range accs {
+				if b.arr == twin[a.arr] && b.write == a.write && offsetPart(b) && eng.SameExpr(a.idx, b.idx) && (b.in.Block() == a.in.Block() || b.in.Block().Dominates(a.in.Block()) || a.in.Block().Dominates(b.in.Block())) {
+					found = true
+					break
+				}
+			}
+			c.Ob(rule, fmt.Sprintf("%s#%d", base, ord[base]), found, eng.InstrPos(a.in),
+				fmt.Sprintf("the %s of the offset part of %s[i] has a twin %s of %s[i] at the same index (the 5th offset byte travels with its entry)", kind, a.arr, kind, twin[a.arr]))
+		}
+		// appends
+		for _, f := range []string{"overflow", "overflowExtra", "values", "valuesExtra"} {
+			for i, st := range eng.Find(fn, eng.StoreToField("CompactSection."+f)) {
+				s := st.(*ssa.Store)
+				call, ok := s.Val.(*ssa.Call)
+				if !ok || !eng.CalleeIs(call, "builtin.append") {
+					continue
+				}
+				nLock++
+				found := false
+				for _, st2 := range eng.Find(fn, eng.StoreToField("CompactSection."+twin[f])) {
+					if c2, ok := st2.(*ssa.Store).Val.(*ssa.Call); ok && eng.CalleeIs(c2, "builtin.append") && st2.Block() == st.Block() {
+						found = true
+					}
+				}
+				c.Ob(rule, fmt.Sprintf("%s append %s#%d", eng.FuncName(fn), f, i), found, s.Pos(), "an append to "+f+" is paired with an append to "+twin[f]+" in the same block")
+			}
+		}
+	}
+	return nLock
 }
